@@ -27,6 +27,11 @@ CLASSES = {
     "SamplesLP": [("log_likelihood", "V"), ("log_prior", "V")],
     "Hist": [("beta", "V"), ("log_norm_ratio", "V"), ("log_norm_ratio_var", "V")],
     "SamplerH": [("history", "O:Hist")],
+    # transforms, acting on ONE row of coordinates (per-column parameters are vectors)
+    "BoundedInit": [("lower", "V"), ("upper", "V")],
+    "Bounded": [("lower", "V"), ("upper", "V"), ("_denom", "V"), ("_scale_log_abs_det_jacobian", "S"), ("eps", "S")],
+    "Periodic": [("lower", "V"), ("upper", "V"), ("_width", "V")],
+    "Affine": [("_mean", "V"), ("_std", "V"), ("log_abs_det_jacobian", "S")],
     "SMCSamples": [("beta", "S"), ("log_likelihood", "V"), ("log_prior", "V"), ("log_q", "V"), ("n", "N")],
     # schedule options held by the sampler
     "SMCSampler": [
@@ -67,6 +72,29 @@ SPECS = [
     dict(name="resample_p", py="samples.py:SMCSamples.resample", objects={"self": ("SMCSamples", "self_")},
          params={"beta": "S"}, ignore_params=["n_samples", "rng"], extract={"first": "log_w", "stop": "idx"}, result="w",
          extract_doc="the probability vector handed to rng.choice: statements from `log_w = ...` up to `idx = ...`"),
+    # ---------------------------------------------------------------- transforms (one row at a time)
+    dict(name="logit", py="utils.py:logit", params={"x": "V", "eps": "OS"}),
+    dict(name="sigmoid", py="utils.py:sigmoid", params={"x": "V"}),
+    dict(name="bounded_init", py="transforms.py:BoundedTransform.__init__", objects={"self": ("BoundedInit", "")},
+         ignore_params=["lower", "upper", "xp", "dtype"], extract={"first_attr": "self._denom", "count": 2},
+         result=["self._denom", "self._scale_log_abs_det_jacobian"],
+         extract_doc="`self._denom = upper - lower; self._scale_log_abs_det_jacobian = -log(denom).sum()`"),
+    dict(name="to_unit_interval", py="transforms.py:BoundedTransform.to_unit_interval", objects={"self": ("Bounded", "")},
+         params={"x": "V"}, row_mode=True),
+    dict(name="from_unit_interval", py="transforms.py:BoundedTransform.from_unit_interval", objects={"self": ("Bounded", "")},
+         params={"y": "V"}, row_mode=True),
+    dict(name="logit_forward", py="transforms.py:LogitTransform.forward", objects={"self": ("Bounded", "")}, params={"x": "V"}, row_mode=True),
+    dict(name="logit_inverse", py="transforms.py:LogitTransform.inverse", objects={"self": ("Bounded", "")}, params={"y": "V"}, row_mode=True),
+    dict(name="probit_forward", py="transforms.py:ProbitTransform.forward", objects={"self": ("Bounded", "")}, params={"x": "V"}, row_mode=True,
+         functions={"erfinv": "erfinv"}, constants={"math.sqrt(2)": "c_sqrt2", "math.log(2 * math.pi)": "c_log2pi"}),
+    dict(name="probit_inverse", py="transforms.py:ProbitTransform.inverse", objects={"self": ("Bounded", "")}, params={"y": "V"}, row_mode=True,
+         functions={"erf": "erf"}, constants={"math.sqrt(2)": "c_sqrt2", "math.log(2 * math.pi)": "c_log2pi"}),
+    dict(name="periodic_forward", py="transforms.py:PeriodicTransform.forward", objects={"self": ("Periodic", "")}, params={"x": "V"},
+         row_mode=True, mod=True),
+    dict(name="periodic_inverse", py="transforms.py:PeriodicTransform.inverse", objects={"self": ("Periodic", "")}, params={"y": "V"},
+         row_mode=True, mod=True),
+    dict(name="affine_forward", py="transforms.py:AffineTransform.forward", objects={"self": ("Affine", "")}, params={"x": "V"}, row_mode=True),
+    dict(name="affine_inverse", py="transforms.py:AffineTransform.inverse", objects={"self": ("Affine", "")}, params={"y": "V"}, row_mode=True),
     # ---------------------------------------------------------------- kernel targets
     dict(name="smc_kernel_target", py="samplers/smc/base.py:SMCSampler.log_prob", objects={"samples": ("SMCSamples", "s_")},
          params={"beta": "S"}, ignore_params=["z"], extra_params={"log_abs_det_jacobian": "V"},
@@ -113,5 +141,7 @@ GROUPS = {
                                       "log_evidence_ratio_variance", "log_weights", "resample_p"]),
     "SrcSchedule": (["SrcSmcSamples"], ["current_target_efficiency", "determine_beta"]),
     "SrcTarget": (["SrcSmcSamples"], ["smc_kernel_target", "mcmc_kernel_target"]),
+    "SrcTransforms": ([], ["logit", "sigmoid", "bounded_init", "to_unit_interval", "from_unit_interval", "logit_forward", "logit_inverse",
+                           "probit_forward", "probit_inverse", "periodic_forward", "periodic_inverse", "affine_forward", "affine_inverse"]),
     "SrcLoop": ([], ["should_checkpoint", "loop_exit", "init_min_step", "resume_loop_flag", "final_evidence"]),
 }
